@@ -112,8 +112,15 @@ func (c *Ctx) ruleIterMod(rule, dir, typeName, field string) {
 		ord := 0
 		ast.Inspect(fd.Body, func(node ast.Node) bool {
 			rs, ok := node.(*ast.RangeStmt)
-			if !ok || !isFieldSel(rs.X) {
+			if !ok {
 				return true
+			}
+			if !isFieldSel(rs.X) {
+				// a local that merely aliases the field's backing array (xs := x.f or a re-slice of it) is no copy
+				id, isIdent := rs.X.(*ast.Ident)
+				if !isIdent || !aliasOfField(fd, id, isFieldSel) {
+					return true
+				}
 			}
 			ord++
 			n++
